@@ -359,7 +359,7 @@ func oracleC03(f *sessionFam, w *World) []Violation {
 			}
 		}
 		// state closed without any close event
-		if s.rank == 3 && len(s.closes) == 0 && s.conn != nil {
+		if s.rank == 3 && len(s.closes) == 0 && s.conn != nil && len(w.evs(a, "close-before-attach")) == 0 {
 			v("close-event-emitted", "", fmt.Sprintf("%s: session reached state closed but no close event was delivered", a))
 		}
 	}
@@ -469,6 +469,8 @@ func (f *sessionFam) armedCauses(w *World, a string, seq int) map[string]bool {
 			armed["transport close"] = true
 			armed["transport error"] = true
 			armed["ping timeout"] = true
+		case "c-handshake-aborted":
+			armed["transport close"], armed["transport error"], armed["ping timeout"] = true, true, true
 		case "c-pong-withheld", "c-ping-skipped", "c-silent":
 			armed["ping timeout"] = true
 		case "c-raw":
